@@ -112,6 +112,12 @@ Definition pick (rpms : list Z) (c : cb) (st mx fail : Z) (rs : list Z) : cb * Z
 Definition done (c : cb) : cb :=
   if cb_out c >? 0 then mkcb (u32 (cb_num c + (2 ^ 32 - 1))) (cb_out c - 1) else c.
 
+(* load reporting of one Pick: CallDropped is called once iff the RPC is dropped (by a category
+   or by circuit breaking), and the droppers after the first one that fires are not consulted *)
+Definition ndrop (res : Z) : Z := if (10 <=? res) || (res =? 2) then 1 else 0.
+Definition nconsult (rpms : list Z) (st res : Z) : Z :=
+  if st =? 2 then (if 10 <=? res then res - 10 + 1 else zlen rpms) else 0.
+
 (* ------------------------------------------------------------------ *)
 (* EDF (float64)                                                       *)
 Record edfe := mke { e_dl : float; e_w : Z; e_off : Z }.
@@ -186,7 +192,7 @@ Fixpoint q_run (k : nat) (cs ws : list Z) : list Z :=
                               obs [rpm; bound; d(0); ...; d(bound-1)]       (bound <= 4000, else [rpm; bound])
    [4; num; den; r]           one dropper.drop with random value r          obs [rpm; bound; d]
    [5; st; max; fail; r1...]  picker.Pick (child state st, countMax max, inner pick fails iff fail=1)
-                              obs [result; inflight]
+                              obs [result; inflight; CallDropped calls; droppers consulted]
    [6]                        Done of one admitted RPC (ignored if none)     obs [inflight]
    [7; k; w1; ...; wn]        EDF with these weights, k picks               obs [idx1; ...; idxk]  *)
 Definition maxEnum : Z := 4000.
@@ -239,7 +245,8 @@ Definition step (rpms : list Z) (c : cb) (op : opc) : cb * word :=
     let rpm := rpm_of num den in
     (c, [rpm; rw_bound (dropper_ws rpm); b2z (drop rpm r)])
   | OPick st mx fail rs =>
-    let '(c', res) := pick rpms c st mx fail rs in (c', [res; cb_num c'])
+    let '(c', res) := pick rpms c st mx fail rs in
+    (c', [res; cb_num c'; ndrop res; nconsult rpms st res])
   | ODone => let c' := done c in (c', [cb_num c'])
   | OEdf k ws =>
     (c, edf_run (Z.to_nat (Z.min (Z.max k 0) maxEdf)) (edf_init 0 ws))
@@ -374,7 +381,7 @@ Fixpoint first_drop_spec (j : Z) (rpms rs : list Z) : option Z :=
 Definition clause_pick (i : Z) (rpms : list Z) (c : cb) (st mx fail : Z) (rs : list Z) (o : word)
   : list (Z * Z * bool) :=
   match o with
-  | [res; n] =>
+  | [res; n; nd; nc] =>
     [(3, i,
       (* drops by category: only while READY, and exactly the configured fraction *)
       (match (if st =? 2 then first_drop_spec 0 rpms rs else None) with
@@ -384,7 +391,10 @@ Definition clause_pick (i : Z) (rpms : list Z) (c : cb) (st mx fail : Z) (rs : l
       (* circuit breaking against the ledger of admitted, unfinished RPCs *)
       (if res =? 0 then (cb_out c <? mx) && (n =? cb_out c + 1)
        else if res =? 2 then (mx <=? cb_out c) && (n =? cb_out c)
-       else n =? cb_out c))]
+       else n =? cb_out c));
+     (* one dropped RPC is one drop event: CallDropped once iff dropped, the first firing
+        category wins and later droppers are not consulted *)
+     (3, i, (nd =? ndrop res) && (nc =? nconsult rpms st res))]
   | _ => [(0, i, false)]
   end.
 
